@@ -30,6 +30,7 @@ type c04nTok struct {
 	parent       int
 	alive        bool
 	secret       string
+	secretBelow  string // leased from a mount in a namespace BELOW the token's own ("" if none)
 	cubbyKeys    []string
 }
 
@@ -98,6 +99,14 @@ func c04PartN(t *testing.T, res *vout.Result, item *int) {
 						fail(fmt.Sprintf("lease at level %d: %s", lvl, ErrText(lr, lerr)))
 					}
 					tk.secret, _ = lr.Data["id"].(string)
+					// a token also authorises requests in the namespaces below its own: a secret
+					// leased there (the lease lives in THAT namespace) is issued under this token too
+					if nsP != "ns1/sub/" {
+						br, berr := s.ReqNS(nss["ns1/sub/"], tk.id, logical.ReadOperation, "rec/lease/x", nil)
+						if OK(br, berr) && br != nil && br.Data != nil {
+							tk.secretBelow, _ = br.Data["id"].(string)
+						}
+					}
 					before := c04nCubbyKeys(s)
 					cr, cerr := s.ReqNS(ns, tk.id, logical.UpdateOperation, "cubbyhole/c04ndata", map[string]interface{}{"v": "CUBBY"})
 					if !OK(cr, cerr) {
@@ -169,6 +178,9 @@ func c04PartN(t *testing.T, res *vout.Result, item *int) {
 					if !tk.alive {
 						if s.Rec.RevokedCount(tk.secret) == 0 {
 							res.Violate("c04:ns:lease-not-revoked", fmt.Sprintf("%v: the secret leased under the revoked %s was not revoked", art, name), art)
+						}
+						if tk.secretBelow != "" && s.Rec.RevokedCount(tk.secretBelow) == 0 {
+							res.Violate("c04:ns:lease-in-descendant-namespace-not-revoked", fmt.Sprintf("%v: the secret the revoked %s leased from a mount in a namespace below its own was not revoked", art, name), art)
 						}
 						for _, k := range tk.cubbyKeys {
 							if _, ok := snap[k]; ok {
